@@ -14,6 +14,19 @@ theorem C02_accounting {l : Level} (h : l.Inv) (q : Nat) (t : Id) (g : Nat) :
       ((l.matchOrder q t g).2.1.complete = true ↔ (l.matchOrder q t g).2.1.remaining = 0) :=
   ⟨(Level.matchOrder_facts h q t g).acct, (Level.matchOrder_facts h q t g).complete⟩
 
+/-- `executed_value` is the level's price times `executed_quantity` (every transaction trades at the level's price) -/
+theorem C02_executed_value {l : Level} (h : l.Inv) (q : Nat) (t : Id) (g : Nat) :
+    (l.matchOrder q t g).2.1.executedValue = l.price * (l.matchOrder q t g).2.1.executed := by
+  have hp : ∀ tx ∈ (l.matchOrder q t g).2.1.txs, tx.price = l.price :=
+    fun tx htx => ((Level.matchOrder_facts h q t g).txok tx htx).2.1
+  unfold MatchResult.executedValue MatchResult.executed
+  generalize (l.matchOrder q t g).2.1.txs = txs at hp
+  induction txs with
+  | nil => simp [sumValue, sumQty]
+  | cons x rest ih =>
+    simp only [sumValue, sumQty]
+    rw [ih (fun tx htx => hp tx (by simp [htx])), hp x (by simp), Nat.mul_add]
+
 /-- every transaction has a positive quantity, the level's price, the given taker id, a maker that
     was resting when the call started, and the side opposite to that maker's -/
 theorem C02_transactions {l : Level} (h : l.Inv) (q : Nat) (t : Id) (g : Nat) :
